@@ -81,6 +81,7 @@ class Gen:
         self.k = 0
         self.feat = set()
         self.oob = False  # generator placed a constant index past the end of a literal
+        self.all_names = set()  # every binder name used so far in the chain (cross-stage re-use after fusion)
 
     # -- names
     def fresh(self, env):
@@ -89,9 +90,13 @@ class Gen:
             return f"v{self.k}"
         if self.naming == "identical":
             return "x"
-        if env and self.r.random() < 0.6:
+        pool = sorted(set(env) | self.all_names)
+        if pool and self.r.random() < 0.6:
             self.feat.add("reuse-live")
-            return self.r.choice(sorted(env))
+            n = self.r.choice(pool)
+            self.all_names.add(n)
+            return n
+        self.all_names.add(f"v{self.k}")
         return f"v{self.k}"
 
     def op(self, name, seq, *args):
